@@ -26,7 +26,9 @@ def field_toks(f):
         t += [natarg_tok(f["mask"]), str(f["bit"])]
     else:
         t += ["-"]
-    t += [str(f["tl2bit"]) if f.get("tl2bit") is not None else "-", "1" if f.get("isBit") else "0"]
+    # flags token: bit 0 = isBit, bit 1 = TL2-omitted field (`_name:T`, gengo Field.IsTL2Omitted)
+    t += [str(f["tl2bit"]) if f.get("tl2bit") is not None else "-",
+          str((1 if f.get("isBit") else 0) | (2 if (f["name"] or "").startswith("_") else 0))]
     t += [str(len(f["natArgs"]))] + [natarg_tok(a) for a in f["natArgs"]]
     return t
 
